@@ -40,6 +40,7 @@ class _Builder:
         self.max_ln = max_ln
         self.hap_cursor = {}  # contig -> next free position
         self.hap_rank = {}
+        self.cycles = False
 
     # ---- ids
     def new_id(self):
@@ -153,6 +154,19 @@ class _Builder:
                 if inv:
                     chrom["features"].append("inversion")
                 block += mids
+            if self.cycles and self.draw(st.integers(0, 1)) == 0:
+                # an extra link inside the block (hairpin or back-link): walks can revisit nodes,
+                # the block structure is unchanged
+                a = self.draw(st.sampled_from(block))
+                b = self.draw(st.sampled_from(block))
+                oa, ob = self.draw(st.sampled_from([("+", "-"), ("-", "+"), ("+", "+")]))
+                if a != b and not any(
+                    min((l[0], l[1], l[2], l[3]), (l[2], FLIP[l[3]], l[0], FLIP[l[1]]))
+                    == min((a, oa, b, ob), (b, FLIP[ob], a, FLIP[oa]))
+                    for l in self.links
+                ):
+                    self.link(a, oa, b, ob)
+                    chrom["features"].append("cycle")
             prev = nxt
         self.chroms.append(chrom)
         return chrom
@@ -175,10 +189,11 @@ class _Builder:
 
 @st.composite
 def rgfa(draw, min_chroms=1, max_chroms=2, max_elements=5, max_ln=9, min_elements=1, allow_bridge=True,
-         max_ears=3):
+         max_ears=3, cycles=False):
     rnd = random.Random(draw(st.integers(0, 2**30)))
     start = draw(st.sampled_from([0, 0, 6, 95, 996]))
     b = _Builder(draw, rnd, ["s", draw(st.sampled_from(["utg", "n", "s0"]))], start, max_ln)
+    b.cycles = cycles
     nchrom = draw(st.integers(min_chroms, max_chroms))
     names = draw(st.permutations(["chr1", "chr2", "chrX", "chr10_alt"]))[:nchrom]
     for name in names:
